@@ -21,6 +21,8 @@ func TestChild(t *testing.T) {
 	switch plan.Rig {
 	case "R":
 		RunRigR(t, plan)
+	case "P":
+		RunRigP(t, plan)
 	case "ST":
 		RunRigST(t, plan)
 	default:
